@@ -16,6 +16,83 @@ from vlib.coqfmt import qlit, coq_list, coq_bool, coq_option, natlit, zlit
 
 POLY_MODELS = ("linear", "quadratic", "polynomial")
 CURVE_MODELS = ("userquad", "exponential", "gaussian")
+
+# user-defined models whose function NAME is that of a pre-set model (or neutral) but whose form / parameter order is not:
+# python name of the function, number of parameters, value and slope (numpy-free references)
+USER_MODELS = {
+    "u_linear": ("linear", 2, lambda x, p: p[0] + p[1] * x, lambda x, p: p[1]),                       # (intercept, slope)
+    "u_quadratic": ("quadratic", 2, lambda x, p: p[0] * x * x + p[1], lambda x, p: 2 * p[0] * x),       # a x^2 + c
+    "u_polynomial": ("polynomial", 3, lambda x, p: p[0] + p[1] * x + p[2] * x * x,                     # lowest power first
+                     lambda x, p: p[1] + 2 * p[2] * x),
+    "u_exponential": ("exponential", 2, lambda x, p: p[1] * math.exp(-p[0] * x),                       # (decay, amplitude)
+                      lambda x, p: -p[0] * p[1] * math.exp(-p[0] * x)),
+    "u_gaussian": ("gaussian", 3,                                                                      # (mean, std, norm)
+                   lambda x, p: p[2] / math.sqrt(2 * math.pi * p[1] * p[1]) * math.exp(-(x - p[0]) ** 2 / (2 * p[1] * p[1])),
+                   lambda x, p: p[2] / math.sqrt(2 * math.pi * p[1] * p[1]) * math.exp(-(x - p[0]) ** 2 / (2 * p[1] * p[1]))
+                   * (-(x - p[0]) / (p[1] * p[1]))),
+    "u_model4": ("model4", 4, lambda x, p: p[0] + p[1] * x + p[2] * x ** 2 + p[3] * x ** 3,
+                 lambda x, p: p[1] + 2 * p[2] * x + 3 * p[3] * x ** 2),
+    "u_model5": ("model5", 5, lambda x, p: p[0] + p[1] * x + p[2] * x ** 2 + p[3] * x ** 3 + p[4] * x ** 4,
+                 lambda x, p: p[1] + 2 * p[2] * x + 3 * p[3] * x ** 2 + 4 * p[4] * x ** 3),
+}
+
+
+MODEL_TEXT = {
+    "u_linear": "linear(x, intercept, slope) = intercept + slope*x", "u_quadratic": "quadratic(x, a, c) = a*x**2 + c",
+    "u_polynomial": "polynomial(x, c0, c1, c2) = c0 + c1*x + c2*x**2",
+    "u_exponential": "exponential(x, decay, amplitude) = amplitude*exp(-decay*x)",
+    "u_gaussian": "gaussian(x, mean, std, norm) = norm/sqrt(2 pi std^2) exp(-(x-mean)^2/(2 std^2))",
+    "u_model4": "model4(x, a, b, c, d) = a + b*x + c*x**2 + d*x**3",
+    "u_model5": "model5(x, a, b, c, d, e) = a + b*x + c*x**2 + d*x**3 + e*x**4", "userquad": "user_quad(x, a, b) = a*x**2 + b*x",
+}
+
+
+def describe_model(case):
+    m = case["model"]
+    if m in MODEL_TEXT:
+        return "user-defined {} {}".format("lambda named" if case.get("as_lambda") else "function", MODEL_TEXT[m])
+    return "pre-set model " + m
+
+
+def make_user_model(name, as_lambda=False):
+    """the Python callable handed to q.fit (works on arrays and on QExPy values)"""
+    q = _q()
+    if name == "u_linear":
+        def linear(x, intercept, slope):
+            return intercept + slope * x
+        f, g = linear, (lambda x, intercept, slope: intercept + slope * x)
+    elif name == "u_quadratic":
+        def quadratic(x, a, c):
+            return a * x ** 2 + c
+        f, g = quadratic, (lambda x, a, c: a * x ** 2 + c)
+    elif name == "u_polynomial":
+        def polynomial(x, c0, c1, c2):
+            return c0 + c1 * x + c2 * x ** 2
+        f, g = polynomial, (lambda x, c0, c1, c2: c0 + c1 * x + c2 * x ** 2)
+    elif name == "u_exponential":
+        def exponential(x, decay, amplitude):
+            return amplitude * q.exp(-decay * x)
+        f, g = exponential, (lambda x, decay, amplitude: amplitude * q.exp(-decay * x))
+    elif name == "u_gaussian":
+        def gaussian(x, mean, std, norm):
+            return norm / q.sqrt(2 * math.pi * std ** 2) * q.exp(-(x - mean) ** 2 / (2 * std ** 2))
+        f, g = gaussian, (lambda x, mean, std, norm: norm / q.sqrt(2 * math.pi * std ** 2) * q.exp(-(x - mean) ** 2 / (2 * std ** 2)))
+    elif name == "u_model4":
+        def model4(x, a, b, c, d):
+            return a + b * x + c * x ** 2 + d * x ** 3
+        f, g = model4, (lambda x, a, b, c, d: a + b * x + c * x ** 2 + d * x ** 3)
+    elif name == "u_model5":
+        def model5(x, a, b, c, d, e):
+            return a + b * x + c * x ** 2 + d * x ** 3 + e * x ** 4
+        f, g = model5, (lambda x, a, b, c, d, e: a + b * x + c * x ** 2 + d * x ** 3 + e * x ** 4)
+    else:
+        raise ValueError(name)
+    if as_lambda:
+        g.__name__ = USER_MODELS[name][0]        # a lambda bound to a name, e.g. by functools.wraps or by hand
+        g.__qualname__ = USER_MODELS[name][0]
+        return g
+    return f
+
 MODES = ("lists", "arrays", "marray", "marray_kwerr", "dataset", "dataset_method", "kwargs")
 EXN = {"ValueError": "EValue", "TypeError": "EType"}
 
@@ -76,6 +153,8 @@ def ref_model(name, params, x):
     """reference value of the fitted model at x (numpy-free)"""
     if name in POLY_MODELS:
         return float(peval([float(p) for p in params], float(x)))
+    if name in USER_MODELS:
+        return USER_MODELS[name][2](x, params)
     if name == "userquad":
         a, b = params
         return a * x * x + b * x
@@ -90,6 +169,8 @@ def ref_model(name, params, x):
 
 def ref_slope(name, params, x):
     """analytic d/dx of the reference model"""
+    if name in USER_MODELS:
+        return USER_MODELS[name][3](x, params)
     if name == "userquad":
         a, b = params
         return 2 * a * x + b
@@ -166,6 +247,8 @@ def nparams_of(case):
         return 3
     if case["model"] == "polynomial":
         return case["deg"] + 1
+    if case["model"] in USER_MODELS:
+        return USER_MODELS[case["model"]][1]
     return {"userquad": 2, "exponential": 2, "gaussian": 3}[case["model"]]
 
 
@@ -282,9 +365,24 @@ def well_posed_poly(case):
     return r[2] * 1000 >= tot and tot > 0
 
 
-def gen_curve_case(rng, noise_free=False):
-    model = rng.choice(CURVE_MODELS)
-    if model == "userquad":
+def gen_curve_case(rng, noise_free=False, model=None):
+    model = model or (rng.choice(CURVE_MODELS) if rng.random() < 0.6 else rng.choice(sorted(USER_MODELS)))
+    if model in ("u_linear", "u_quadratic", "u_polynomial", "u_model4", "u_model5"):
+        npar = USER_MODELS[model][1]
+        truth = [rng.choice([-1, 1]) * dy8(rng, 0.5, 3) / (1 + i) ** 2 for i in range(npar)]
+        if model == "u_quadratic":
+            truth = [rng.choice([-1, 1]) * dy8(rng, 0.5, 1.5), rng.choice([-1, 1]) * dy8(rng, 1, 4)]
+        n = rng.randrange(npar + 3, npar + 8)
+        xs = gen_xs(rng, n, -3, 3) if npar >= 4 else gen_xs(rng, n, -4, 4)
+    elif model == "u_exponential":
+        truth = [dy8(rng, 0.25, 1.5), dy8(rng, 1, 8)]
+        n = rng.randrange(5, 10)
+        xs = gen_xs(rng, n, 0, 4)
+    elif model == "u_gaussian":
+        truth = [rng.choice([-1, 1]) * dy8(rng, 0.125, 1), dy8(rng, 0.75, 2), dy8(rng, 2, 10)]
+        n = rng.randrange(7, 12)
+        xs = gen_xs(rng, n, -4, 4)
+    elif model == "userquad":
         truth = [rng.choice([-1, 1]) * dy8(rng, 0.5, 2), dy8(rng, -3, 3)]
         n = rng.randrange(4, 10)
         xs = gen_xs(rng, n, -4, 4)
@@ -304,6 +402,7 @@ def gen_curve_case(rng, noise_free=False):
     ys = [ref_model(model, truth, x) + (rng.randrange(-8, 9) / 8.0) * amp for x in xs]
     guess = [t * (1 + rng.choice([-1, 1]) * 0.05) if t else 0.05 for t in truth]
     case = {"kind": "curve", "model": model, "truth": truth, "guess": guess, "noise_free": noise_free,
+            "as_lambda": model in USER_MODELS and rng.random() < 0.4,
             "xs": xs, "ys": ys, "xerr": gen_err_pattern(rng, n) if rng.random() < 0.65 else None,
             "yerr": gen_err_pattern(rng, n), "xrange": None, "mode": rng.choice(MODES)}
     if isinstance(case["xerr"], (float, list)):
@@ -333,6 +432,7 @@ def user_quad(x, a, b):
 class Recorder:
     def __init__(self):
         self.polyfit, self.curve_fit, self.deriv = [], [], []
+        self.result_args = []        # what fit_to_xy_dataset hands to XYFitResult: parameter objects, reported matrix
 
 
 @contextlib.contextmanager
@@ -370,16 +470,26 @@ def recording(rec):
         rec.deriv.append({"x0": [float(v) for v in np.atleast_1d(x0)], "out": [float(v) for v in np.atleast_1d(out)]})
         return out
 
+    o_result = ff.XYFitResult
+
+    def result(**kw):
+        rec.result_args.append({"params": kw.get("res_params"), "pcorr": kw.get("pcorr")})
+        return o_result(**kw)
+
     ff.np.polyfit, ff.opt.curve_fit, ff.utils.numerical_derivative = polyfit, curve_fit, numerical_derivative
+    ff.XYFitResult = result
     try:
         yield rec
     finally:
         ff.np.polyfit, ff.opt.curve_fit, ff.utils.numerical_derivative = o_poly, o_curve, o_deriv
+        ff.XYFitResult = o_result
 
 
 def model_arg(case):
     q = _q()
     m = case["model"]
+    if m in USER_MODELS:
+        return make_user_model(m, case.get("as_lambda", False))
     if m == "userquad":
         return user_quad
     if case.get("designator") == "enum":
@@ -481,6 +591,14 @@ def run_call(thunk, case, observe_result=False):
                 warnings.simplefilter("ignore")
                 with np.errstate(all="ignore"):
                     obs["result"] = observe(res, case)
+    elif observe_result and rec.result_args and rec.result_args[-1]["params"] is not None:
+        # the fit raised while the result object was being built: the parameter objects exist already
+        with warnings.catch_warnings():
+            warnings.simplefilter("ignore")
+            try:
+                obs["partial"] = observe_params(rec.result_args[-1]["params"], rec.result_args[-1]["pcorr"])
+            except Exception:  # noqa
+                pass
     obs["_res"] = res
     return obs
 
@@ -492,7 +610,7 @@ def run_call(thunk, case, observe_result=False):
 #         "xs", "ys", "xerr", "yerr": the data the object is created with,
 #         "requests": [ {kind, model, deg, designator, degrees_kw, xrange, xrange_type, guess, ...}, ... ],
 #         "steps": [ ["fit", k] | ["yerr", [..]] | ["xerr", [..]] | ["y", i, v] | ["yerr1", i, e] | ["xerr1", i, e] ]}
-REQ_KEYS = ("kind", "model", "deg", "designator", "degrees_kw", "xrange", "xrange_type", "guess", "truth", "noise_free")
+REQ_KEYS = ("kind", "model", "deg", "designator", "degrees_kw", "xrange", "xrange_type", "guess", "truth", "noise_free", "as_lambda")
 
 
 def request_of(case):
@@ -732,32 +850,49 @@ def parse_printed_matrix(text):
     return rows
 
 
-def observe(res, case):
-    """everything C07 talks about, read through the public API (plus the stored correlation matrix)"""
-    import numpy as np
+def observe_params(params, pcorr):
+    """uncertainties, reported matrix and what is registered between the parameter objects"""
     q = _q()
+    n = len(params)
+    return {
+        "params": [float(p.value) for p in params], "errs": [float(p.error) for p in params],
+        "pcorr": [[float(v) for v in row] for row in pcorr],
+        "getcorr": [[float(q.get_correlation(params[i], params[j])) for j in range(n)] for i in range(n)],
+        "getcov": [[float(q.get_covariance(params[i], params[j])) for j in range(n)] for i in range(n)],
+    }
+
+
+def observe(res, case):
+    """everything C07 talks about, read through the public API (plus the stored correlation matrix).
+    The parameter-level observations come first; if evaluating the fitted function raises, that is recorded
+    under "eval_exn" and the value-level entries are missing."""
+    import numpy as np
     n = len(res.params)
     ev = eval_points(case)
     f = res.fit_function
-    scal = [float(f(x).value) for x in ev]
-    lst_out = f(list(ev))
-    arr_out = f(np.array(ev))
-    out = {
-        "eval": ev, "scalar": scal,
-        "list": [float(v.value) for v in lst_out], "list_type": type(lst_out).__name__,
-        "array": [float(v.value) for v in arr_out], "array_type": type(arr_out).__name__,
-        "band": [float(f(x).error) for x in ev],
-        "table": [float(f(float(x)).value) for x in case["xs"]],
-        "residuals": [float(r.value) for r in res.residuals],
-        "chi2": float(res.chi_squared), "ndof": int(res.ndof),
-        "pcorr": [[float(v) for v in row] for row in res._result.pcorr],
-        "getcorr": [[float(q.get_correlation(res[i], res[j])) for j in range(n)] for i in range(n)],
-        "getcov": [[float(q.get_covariance(res[i], res[j])) for j in range(n)] for i in range(n)],
+    out = observe_params(res.params, res._result.pcorr)
+    out.update({
+        "eval": ev,
         "printed": parse_printed_matrix(str(res)),
         "getitem": [float(res[i].value) for i in range(n)],
         "dataset_x": [float(v) for v in res.dataset.xvalues], "dataset_y": [float(v) for v in res.dataset.yvalues],
         "dataset_yerr": [float(v) for v in res.dataset.yerr],
-    }
+    })
+    try:
+        scal = [float(f(x).value) for x in ev]
+        lst_out = f(list(ev))
+        arr_out = f(np.array(ev))
+        out.update({
+            "scalar": scal,
+            "list": [float(v.value) for v in lst_out], "list_type": type(lst_out).__name__,
+            "array": [float(v.value) for v in arr_out], "array_type": type(arr_out).__name__,
+            "band": [float(f(x).error) for x in ev],
+            "table": [float(f(float(x)).value) for x in case["xs"]],
+            "residuals": [float(r.value) for r in res.residuals],
+            "chi2": float(res.chi_squared), "ndof": int(res.ndof),
+        })
+    except Exception as e:  # noqa
+        out["eval_exn"] = "{}: {}".format(type(e).__name__, str(e)[:120])
     return out
 
 
